@@ -19,7 +19,7 @@ PROP = {
     "assumptions": [],
 }
 CLAIM = {
-  "text": "Source level (C03s): mapErrorToExceptionCode is translated from the Go source on every run (harness/cmd/gosrc -> Gen/SrcPure.v) and proved to be the documented table on every error value (= herr_code of the server model). Coq theorems over the server model, for EVERY request PDU, byte stream and handler behaviour (the handler is an arbitrary function): per-frame characterisation against an independent decoder spec (exactly one call with the decoded fields + exactly the specified response / mapped exception / exception 4 on wrong-sized results; exception 2 past 0xFFFF and exception 1 for unsupported codes without a call; malformed requests never reach a handler), pipelined frames answered once each in order with their own transaction id, bad headers close the session, every handler call is in range and within limits, responses <= 260 bytes, decoder panics unreachable. The real per-connection server path is compared with the model on every run (calls, responses, close).",
+  "text": "Source level (C03s): mapErrorToExceptionCode is translated from the Go source on every run (harness/cmd/gosrc -> Gen/SrcPure.v) and proved to be the documented table on every error value (= herr_code of the server model). Coq theorems over the server model, for EVERY request PDU, byte stream and handler behaviour (the handler is an arbitrary function): per-frame characterisation against an independent decoder spec (exactly one call with the decoded fields + exactly the specified response / mapped exception / exception 4 on wrong-sized results; exception 2 past 0xFFFF and exception 1 for unsupported codes without a call; malformed requests never reach a handler), pipelined frames answered once each in order with their own transaction id, bad headers close the session, every handler call is in range and within limits, responses <= 260 bytes, decoder panics unreachable. The real per-connection server path is compared with the model on every run (calls, responses, close). At source level (Properties/C03t.v): ModbusServer.handleTransport as translated from server.go on every run, with the transport and the handler as external functions over an arbitrary world, is proved to be the loop of the model's server_process.",
   "note": "Model follows the tree with fix F5 applied. The model has no panic outcome for the server loop: a recovered panic in the harness is an observable the model never produces. Trusted: kernel, extraction, harness, scripted connection, VerifServeConn hook.",
   "technique": "Coq proof over Go source functions translated on every run (GoLite deep embedding) + Coq proof (case analysis per function code, induction over frames with fuel irrelevance) + differential correspondence on scripted sessions",
 }
